@@ -653,7 +653,10 @@ impl ColorTransform {
                     }
                 }
             }
-            *ret.lock().unwrap() = Ok(num_channels);
+            let mut ret = ret.lock().unwrap();
+            if ret.is_ok() {
+                *ret = Ok(num_channels);
+            }
         });
         ret.into_inner().unwrap()
     }
